@@ -39,6 +39,10 @@ const ED25519_SPKI_OID: &[u8] = &[0x2b, 0x65, 0x70];
 /// 1.2.840.10045.2.1 ecPublicKey (Elliptic Curve public key cryptography)
 const ECC_SPKI_OID: &[u8] = &[0x2a, 0x86, 0x48, 0xce, 0x3d, 0x02, 0x01];
 
+/// 1.2.840.10045.3.1.7 prime256v1 (NIST P-256), the only supported curve
+const ECC_P256_CURVE_OID: &[u8] =
+    &[0x2a, 0x86, 0x48, 0xce, 0x3d, 0x03, 0x01, 0x07];
+
 /// The length of an ed25519 private key in bytes
 const ED25519_PRIVATE_KEY_LENGTH: usize = 32;
 
@@ -767,10 +771,20 @@ impl PublicKey {
                         .map_err(|_| derp::Error::WrongValue)?;
 
                     if typ == KeyType::Ecdsa {
-                        let _alg_oid =
+                        // RFC 5480: the parameters name the curve
+                        let curve =
                             derp::expect_tag_and_get_value(input, Tag::Oid)?;
+                        if curve.as_slice_less_safe() != ECC_P256_CURVE_OID {
+                            return Err(derp::Error::WrongValue);
+                        }
+                    } else if typ == KeyType::Ed25519 {
+                        // RFC 8410: the parameters MUST be absent; a NULL is
+                        // tolerated because earlier versions wrote one
+                        if !input.at_end() {
+                            derp::read_null(input)?;
+                        }
                     } else {
-                        // for RSA / ed25519 this is null, so don't both parsing it
+                        // for RSA this is null, so don't both parsing it
                         derp::read_null(input)?;
                     }
                     Ok(typ)
@@ -1154,7 +1168,16 @@ fn write_spki(
             der.sequence(|der| match key_type.as_oid().ok() {
                 Some(tag) => {
                     der.element(Tag::Oid, tag)?;
-                    der.null()
+                    match key_type {
+                        // RFC 5480: named curve
+                        KeyType::Ecdsa => {
+                            der.element(Tag::Oid, ECC_P256_CURVE_OID)
+                        }
+                        // RFC 8410: no parameters
+                        KeyType::Ed25519 => Ok(()),
+                        // RFC 3279: NULL
+                        _ => der.null(),
+                    }
                 }
                 None => Err(derp::Error::WrongValue),
             })?;
